@@ -93,6 +93,10 @@ EXPLANATION += (
     ' Round 13: positions returned by a binary search depend on the arrangement of the array searched (taint).'
 )
 
+EXPLANATION += (
+    ' Round 14: set algebra on dict key views yields a set with a hash-order label in the taint engine.'
+)
+
 RULE_TEXT = (
     "one obligation per (sink site, set of source labels) finding, per "
     "benign source used, per RNG construction, per merge loop, per worker "
